@@ -128,7 +128,7 @@ PROPERTY = dict(
                 motif='arbitrary 4-character string (all unicode code points)', read='16 nt (4 motif + 12 concrete insert)',
                 flags='invert_strand, check_motif, no_umi_cigar_processing, allow_cycle_shift symbolic'),
     outside=['no_overhang=True with soft-clipped reads or a reference window other than 7 bases (cut_location_offset != -4)', 'reads with indels inside the first 4 bases',
-             'paired-end variants use one fixed R2 geometry', 'real pysam record storage (replay only)'],
+             'paired-end variants use one fixed R2 geometry', 'real pysam record storage (replay only)', 'the strategy names TCHIC / CTV, whose reads are trimmed like scCHIC384C8U3 but are treated as untrimmed by CHICFragment (one of the two offsets is wrong; the source does not say which)'],
     assumptions=['FakeRead models pysam.AlignedSegment accessors (validated against real reads by stubs/validate.py)',
                  'ground truth geometry: recognised CATG occupies reference [X,X+4); forward read aligned start = X+clip; '
                  'reverse read aligned end = X+4-clip',
